@@ -267,7 +267,13 @@ class Interp:
             # a pointer value of unknown provenance (loaded from memory, returned by an opaque
             # call): it becomes its own symbolic base object
             p = self.symptr(p)
-        return T.mk('ptr', p.attr, (T.binop('add', p.args[0], delta, 'i64'),), 'ptr')
+        off = T.binop('add', p.args[0], delta, 'i64')
+        if off.op == 'ite' and T.const_tree(off):
+            def dist(o):
+                if o.op == 'ite': return T.ite(o.args[0], dist(o.args[1]), dist(o.args[2]))
+                return T.mk('ptr', p.attr, (o,), 'ptr')
+            return dist(off)
+        return T.mk('ptr', p.attr, (off,), 'ptr')
 
     def symptr(self, p):
         if p.op == 'ptr':
